@@ -36,10 +36,30 @@ def blocks_of(d):
     return out
 
 
+# the harmonic term of the bound: frouros writes 1/(n - (min_window_size + 1)), MOA's ADWIN.java and river 1/(n - min_window_size + 1); the property names "the ADWIN bound
+# eps_cut", not one of the two - a cut is justified when it is justified under either, and a split "still exceeds" only when it does under both (WHICH of the two the code
+# uses is the model's business: a difference from the model is a correspondence break)
+FORM = ["frouros"]
+
+
+def either_form(fn, d, combine):
+    res = []
+    for form in ("frouros", "moa"):
+        FORM[0] = form
+        try:
+            res.append(fn(d))
+        except (ZeroDivisionError, ValueError):
+            res.append(None)
+        finally:
+            FORM[0] = "frouros"
+    vals = [r for r in res if r is not None]
+    return combine(vals) if vals else False
+
+
 def eps_cut(d, n0: int, n1: int) -> float:
     """the ADWIN bound written out from the configuration (NOT the detector's own routine): eps = sqrt(2 m v d') + (2/3) d' m with
     d' = ln(2 ln(width) / delta), m = 1/(n0 - k) + 1/(n1 - k), k = min_window_size + 1, v = variance / width"""
-    delta, k = float(d.config.delta), int(d.config.min_window_size) + 1
+    delta, k = float(d.config.delta), int(d.config.min_window_size) + (1 if FORM[0] == "frouros" else -1)
     width, var = int(d.width), float(d.variance)
     dp = math.log(2.0 * math.log(width) / delta)
     m = 1.0 / (n0 - k) + 1.0 / (n1 - k)
@@ -58,7 +78,7 @@ def exceeds_any_boundary_split(d) -> bool:
         n1 -= size
         t0 += tot
         t1 -= tot
-        if n1 > mw and n0 > mw and n0 != mw + 1 and n1 != mw + 1:
+        if n1 > mw and n0 > mw and (FORM[0] != "frouros" or (n0 != mw + 1 and n1 != mw + 1)):      # (frouros' form of the term is infinite for a part of min_window_size + 1 values)
             thr = eps_cut(d, n0, n1)
             if abs(t0 / n0 - t1 / n1) > thr * (1 - 1e-9):
                 return True
@@ -78,7 +98,7 @@ def examined_exceeds(d) -> bool:
             n1 -= 2 ** i
             t0 += float(b.total[j])
             t1 -= float(b.total[j])
-            if n1 > mw and n0 > mw and n0 != mw + 1 and n1 != mw + 1:
+            if n1 > mw and n0 > mw and (FORM[0] != "frouros" or (n0 != mw + 1 and n1 != mw + 1)):      # (frouros' form of the term is infinite for a part of min_window_size + 1 values)
                 thr = eps_cut(d, n0, n1)
                 if abs(t0 / n0 - t1 / n1) > thr * (1 + 1e-9):
                     return True
@@ -134,15 +154,24 @@ def check(out: Outcome, p: dict, xs: list, runners: list, label: str = "") -> No
         if abs(float(d.variance) - ssd(win)) > max(1e-6 * wm * wm * max(1, w), 8.0 * ab.budget_var * 1e3) + 1e-300:
             out.violation(f"ADWIN: variance {float(d.variance)!r} is not the sum of squared deviations of the last {w} values ({ssd(win)!r}) at step {t}", rep)
             break
-        bl = blocks_of(d)
-        if sum(s for s, _, _ in bl) != w:
+        try:
+            bl = blocks_of(d)
+            row_lengths = [int(b.idx) for b in d.buckets]
+        except (AttributeError, TypeError, IndexError):
+            # the rows are kept in another representation than arrays with an `idx` counter: the clauses about the stored buckets are skipped (counted), the window clauses
+            # above and the cut clauses below (which fall back in the same way) remain
+            bl, row_lengths = None, []
+            out.count("bucket_clauses_skipped_private_representation")
+        if bl is None:
+            pass
+        elif sum(s for s, _, _ in bl) != w:
             out.violation(f"ADWIN: bucket sizes sum to {sum(s for s, _, _ in bl)} but width is {w} at step {t}", rep)
             break
-        if any(b.idx > fp["m"] for b in d.buckets):
+        if any(k_ > fp["m"] for k_ in row_lengths):
             out.violation(f"ADWIN: a bucket row holds more than m={fp['m']} entries after update {t}", rep)
             break
         pos, bad = 0, None
-        for size, tot, var in bl:
+        for size, tot, var in (bl or []):
             blk = win[pos: pos + size]
             pos += size
             if abs(tot - math.fsum(blk)) > 1e-9 * mag * size or abs(var - ssd(blk)) > 1e-6 * mag * mag * size:
@@ -163,8 +192,8 @@ def check(out: Outcome, p: dict, xs: list, runners: list, label: str = "") -> No
                     pre._insert_bucket(value=x)
                 except TypeError:           # the private helper's parameter has another name
                     pre._insert_bucket(x)
-                justified = exceeds_any_boundary_split(pre)
-            except (AttributeError, TypeError):
+                justified = either_form(exceeds_any_boundary_split, pre, any)
+            except (AttributeError, TypeError, IndexError):
                 justified = True
                 out.count("shrink_justification_skipped_private_api_missing")
             if not justified:
@@ -174,8 +203,8 @@ def check(out: Outcome, p: dict, xs: list, runners: list, label: str = "") -> No
             out.violation(f"ADWIN: drift={bool(d.drift)} but data {'was' if dropped else 'was not'} dropped at step {t}", rep)
             break
         try:
-            still = due and examined_exceeds(d)
-        except AttributeError:
+            still = due and either_form(examined_exceeds, d, all)
+        except (AttributeError, TypeError, IndexError):
             still = False
             out.count("post_check_clause_skipped_private_api_missing")
         if still:
